@@ -1,11 +1,15 @@
-"""C03 — lexical scoping, closures, one-time defaults (narrowed)."""
-from . import kcrate
+"""C03 — lexical scoping, closures, one-time defaults (narrowed).
+X-smt: distinct identifiers never alias in the interner.  K-crate: capture cell creation and runtime capture resolution."""
+from . import core, intern_q, kcrate
 
 OUT = [
-    "name lookup through parents (HashMap-keyed get_item), forward-reference gating, closures escaping through builtins",
-    "anything needing a compiled program",
+    "name lookup through parents (get_item), forward-reference gating, closures escaping through builtins, one-time evaluation of defaults",
+    "anything needing a compiled program; identifiers longer than 14 characters",
 ]
 
 
 def run(chk):
+    tmo = 120 if chk.tier == "quick" else 900
+    if not chk.only or any("intern" in o for o in chk.only):
+        intern_q.injective(chk, tmo)
     return kcrate.run(chk, [("runtime_scope.rs", "c03_"), ("compilation_scope.rs", "c03_")], out=OUT)
